@@ -91,15 +91,43 @@ def close_pool():
         _POOL = None
 
 
-def pmap(fn, items, chunk=None):
-    """Ordered parallel map (results in generation order so output is reproducible)."""
+class _Chunk:
+    """picklable: run fn over a chunk of items inside ONE child forked from the (pristine) pool worker.  Interpreter
+    state that a case leaves behind (caches, module globals, class attributes) therefore never outlives its chunk, and
+    the cases that ran before a given case are known exactly: the items of its chunk in front of it."""
+
+    def __init__(self, fn):
+        self.fn = fn
+
+    def __call__(self, items):
+        return in_fork(_run_all, self.fn, items)
+
+
+def _run_all(fn, items):
+    return [fn(x) for x in items]
+
+
+def chunks_of(items, chunk):
+    return [items[i:i + chunk] for i in range(0, len(items), chunk)]
+
+
+def pmap(fn, items, chunk=None, isolate=False):
+    """Ordered parallel map (results in generation order so output is reproducible).
+    isolate: each chunk runs in its own forked child (see _Chunk)."""
     items = list(items)
     if not items:
         return []
-    if NPROC <= 1 or len(items) < 4:
-        return [fn(x) for x in items]
     if chunk is None:
         chunk = max(1, min(256, len(items) // (NPROC * 8) or 1))
+    if isolate:
+        parts = chunks_of(items, chunk)
+        if NPROC <= 1 or len(parts) < 2:
+            res = [_Chunk(fn)(p) for p in parts]
+        else:
+            res = pool().map(_Chunk(fn), parts, chunksize=1)
+        return [r for part in res for r in part]
+    if NPROC <= 1 or len(items) < 4:
+        return [fn(x) for x in items]
     return pool().map(fn, items, chunksize=chunk)
 
 
